@@ -34,7 +34,10 @@ PmDesc(f, pat, dflt) == [form |-> f, pat |-> pat, dflt |-> dflt]
 \* pattern kinds: what the proc macro accepts is a string literal token (plain, raw), concat!(..) or stringify!(..)
 \* of such; everything else is a non-literal pattern - also when it merely *starts* with a string literal
 \* (range patterns "a"..="z", "a"..), which the pinned tree accepted (finding F10)
-LiteralPats    == {"literal", "raw", "concat", "stringify"}
-NonLiteralPats == {"ident", "expr", "range", "range_from", "char", "bytes", "int", "path", "binding", "ref"}
+\* fwd_*: the invocation sits inside a user macro_rules! that forwards fragments (literal / expr / pat / tt) into the
+\* pattern position; a forwarded fragment arrives wrapped in an invisible group, possibly nested
+LiteralPats    == {"literal", "raw", "concat", "stringify", "fwd_literal", "fwd_expr_lit", "fwd_pat_lit", "fwd_tt_lit", "fwd_lit_alt"}
+NonLiteralPats == {"ident", "expr", "range", "range_from", "char", "bytes", "int", "path", "binding", "ref",
+                   "fwd_range", "fwd_range_from", "fwd_pat_range", "fwd_expr_const"}
 PmRejected(d) == d.pat \notin LiteralPats \/ (Branching(d.form) /\ ~d.dflt)
 =============================================================================
